@@ -10,14 +10,13 @@
    hypothesis [late (fst c) = false] says that no fetch_add returned an index < B on a block not
    reachable from tail (the ghost flag is set by exactly that event and never reset); for model
    runs of a case this is [known_class c = None] (C05_conservation_on_model_runs).
-   STILL NOT PROVED (see level_note): C05_snapshot_sees_completed / C05_is_empty_sound for
-   concurrent runs (what a snapshot, as opposed to a clear, must show), and C05_spec_ok_on_model /
-   C05_spec_ok_iff (that the trace-level checker spec_ok accepts every model run outside the
-   class, and what its acceptance means at the Prop level).                                      *)
+   STILL NOT PROVED (see level_note): C05_spec_ok_on_model in full (that the trace-level checker
+   spec_ok accepts every model run outside the class); what IS proved about spec_ok is in the
+   last section (C05_spec_ok_sound, C05_spec_no_double_clear_on_model).                        *)
 From Coq Require Import List NArith Bool Arith Permutation Lia.
 Import ListNotations.
 Require Import MV.Common.Interleave MV.C05.Model MV.C05.Spec MV.C05.Exec.
-Require Import MV.C05.ProofsSeq MV.C05.ProofsInv MV.C05.ProofsCor MV.C05.ProofsUniq MV.C05.ProofsCons MV.C05.ProofsProg.
+Require Import MV.C05.ProofsSeq MV.C05.ProofsInv MV.C05.ProofsCor MV.C05.ProofsUniq MV.C05.ProofsCons MV.C05.ProofsProg MV.C05.ProofsSnap MV.C05.ProofsEmpty MV.C05.ProofsOrder MV.C05.ProofsSpec.
 Local Open Scope nat_scope.
 
 (* (1) complete calls, run one after the other by any threads, are exactly the bag operations:
@@ -195,6 +194,110 @@ Proof.
              (R_step BS HB true (fst c)) rr_fuel (map N.to_nat (snd c)) (init_config (fst c))).
     split; [exact (All_init BS HB true (fst c))|exact (R_init BS HB (fst c))].
 Qed.
+
+(* (5) SNAPSHOTS, every schedule (concurrent clears, hand-overs, late claims all allowed).
+   Let c be any reachable configuration in which thread t has just executed the first step (530)
+   of a data_with call: pc W1 false b0 [] - it holds the tail pointer b0 it loaded
+   (snapshot_first_step: the step from W0 false with tail = Some b0 leads there and changes
+   nothing).  Every value that is published at that moment in a block reachable from b0 (= every
+   identity whose push completed before the snapshot's first step and was resident in the live
+   chain) is, in every later configuration, either already handed to the callback / still ahead
+   in the part of the chain the thread has not read, or - once the call has returned - in the
+   slices the call was handed.  A clear that detaches the chain in between takes nothing away
+   from the snapshot. Before fix f69617a this is false: C05_handover_refuted_before_fix. *)
+Theorem C05_snapshot_sees_completed : forall B fxc ps sched0 sched t l b0, 1 <= B ->
+  let c := fst (exec (step B true fxc) site (init_config ps) sched0) in
+  nth_error (snd c) t = Some l -> pcl l = W1 false b0 [] ->
+  let c' := fst (exec (step B true fxc) site c sched) in
+  forall l', nth_error (snd c') t = Some l' ->
+  (results l' = results l /\
+   exists acc o, walk_pos (heap (fst c')) l' = Some (acc, o) /\
+     forall d i x, Reach (heap (fst c)) (Some b0) d -> slot (heap (fst c)) d i = Some x -> pub (heap (fst c)) d i ->
+                   In x (concat acc) \/ Reach (heap (fst c')) o d) \/
+  (exists rs1 sl, results l' = rs1 ++ RData sl :: results l /\
+     forall d i x, Reach (heap (fst c)) (Some b0) d -> slot (heap (fst c)) d i = Some x -> pub (heap (fst c)) d i ->
+                   In x (concat sl)).
+Proof.
+  intros B fxc ps sched0 sched t l b0 HB c Hl Hpc c' l' Hl'.
+  apply (snapshot_sees_completed B HB fxc c t l b0 sched (reachable_All B HB fxc ps sched0) Hl Hpc l' Hl').
+Qed.
+
+Theorem C05_snapshot_first_step : forall B fxc s l b0,
+  pcl l = W0 false -> tail s = Some b0 -> step B true fxc s l = Some (s, goto l (W1 false b0 [])).
+Proof. intros. apply snapshot_first_step; auto. Qed.
+
+(* (6) is_empty (code after fix 1a8142c), every schedule.  c: thread t has just executed its 520
+   step on a non-empty bucket (pc E1 b0).  If that call later returns TRUE then, of everything
+   published at c: nothing is in the head block b0; nothing is in its successor; and if b0 has a
+   successor at all, more than B threads exist (all B slots of the full successor were claimed
+   and unpublished when it was inspected) - so with at most B threads nothing published at c is
+   anywhere in the chain from b0.  If it returns FALSE, some slot is published.  (With more than
+   B threads is_empty = true can miss completed pushes resident deeper than the successor.) *)
+Theorem C05_is_empty_sound : forall B ps sched0 sched t l b0, 1 <= B ->
+  let c := fst (exec (step B true true) site (init_config ps) sched0) in
+  nth_error (snd c) t = Some l -> pcl l = E1 b0 ->
+  let h := heap (fst c) in
+  let c' := fst (exec (step B true true) site c sched) in
+  forall l' rs1 r, nth_error (snd c') t = Some l' -> results l' = rs1 ++ REmpty r :: results l ->
+  (r = true ->
+     (forall i, ~ pub h b0 i) /\
+     (forall nb, bnxt (getb h b0) = Some nb -> (forall i, ~ pub h nb i) /\ B < length (snd c)) /\
+     (length (snd c) <= B -> forall d i, Reach h (Some b0) d -> ~ pub h d i)) /\
+  (r = false -> exists d i, pub (heap (fst c')) d i).
+Proof.
+  intros B ps sched0 sched t l b0 HB c Hl Hpc h c' l' rs1 r Hl' Er.
+  apply (is_empty_sound B HB c t l b0 sched (reachable_All B HB true ps sched0) Hl Hpc l' rs1 r Hl' Er).
+Qed.
+
+(* (7) order inside a block: the slice handed out at 506 is slot 0 .. slot (len-1), and slot
+   order is claim order (a fetch_add returns the write index and bumps it; the write index never
+   decreases; every index claimed so far is below it) *)
+Theorem C05_block_order : forall B fxc ps sched0, 1 <= B ->
+  let c := fst (exec (step B true fxc) site (init_config ps) sched0) in
+  forall b, b < length (heap (fst c)) ->
+  (let k := getb (heap (fst c)) b in
+   let data := data_of k (tones (bdone k)) in
+   length data = tones (bdone k) /\
+   forall j, j < tones (bdone k) -> exists x, slot (heap (fst c)) b j = Some x /\ nth j data garbage = x) /\
+  (forall i, i < B ->
+     (pub (heap (fst c)) b i \/ exists t l, nth_error (snd c) t = Some l /\ inflight b i l = 1) ->
+     i < bw (getb (heap (fst c)) b)) /\
+  (forall sched, let c' := fst (exec (step B true fxc) site c sched) in
+     b < length (heap (fst c')) /\ bw (getb (heap (fst c)) b) <= bw (getb (heap (fst c')) b)) /\
+  (forall l x sec, pcl l = P2 x b sec -> bw (getb (heap (fst c)) b) < B ->
+     exists s', step B true fxc (fst c) l = Some (s', goto l (P3 x b (bw (getb (heap (fst c)) b)))) /\
+                bw (getb (heap s') b) = S (bw (getb (heap (fst c)) b))).
+Proof.
+  intros B fxc ps sched0 HB c b Hb. pose proof (reachable_Inv B HB fxc ps sched0) as HI. fold c in HI.
+  destruct c as [s ls] eqn:Ec. cbn [fst snd] in *.
+  split; [apply (slice_in_slot_order B HB s ls b HI Hb)|].
+  split; [intros i Hi H; apply (claimed_below_write_index B HB s ls b i HI Hb Hi H)|].
+  split; [intros sched; apply (write_index_monotone B HB fxc (s, ls) b sched HI Hb)|].
+  intros l x sec E Hlt. exact (claim_returns_write_index B fxc s l x b sec E Hlt Hb).
+Qed.
+
+(* (8) the executable checker.  Soundness: what spec_ok = true on an OBSERVED run (implementation
+   or model) means at the Prop level, for the clauses that do not involve trace positions: no
+   anomaly; results shaped like the programs; no identity handed to clearing reads twice; no
+   duplicate in the final read; and, when everybody finished, the identities of all push calls
+   of the programs are exactly those handed to clears plus those of the final read (no
+   duplicates, same number, every push present). *)
+Theorem C05_spec_ok_sound : forall (c : case) tr rss done final anom,
+  spec_ok c (tr, rss, done, final, anom) = true ->
+  anom = 0%N /\ all2 follows (fst c) rss = true /\
+  NoDup (map vid (cleared_out rss)) /\ NoDup (map vid (concat final)) /\
+  (done = true ->
+     NoDup (map vid (cleared_out rss ++ concat final)) /\
+     (forall x, In x (all_pushes (fst c) 0) -> In (vid x) (map vid (cleared_out rss ++ concat final))) /\
+     length (cleared_out rss ++ concat final) = length (all_pushes (fst c) 0)).
+Proof. intros c tr rss done final anom H. apply (spec_ok_sound (fst c) tr rss done final anom H). Qed.
+
+(* the part of "the model satisfies the checker" that the invariants give: clause S1 (no identity
+   handed to clears twice) is true on the model's run of EVERY case, in or out of the known class *)
+Theorem C05_spec_no_double_clear_on_model : forall c : case,
+  let '(tr, rss, _, _, _) := run_case c in
+  nodupb (flat_map handed (filter is_clear (rcalls tr 0 rss))) = true.
+Proof. exact no_double_clear_on_model. Qed.
 
 (* the open finding: inside the class the property fails (witness replayed on the real code:
    corpus/C05/b-late-claim-lost.json) *)
